@@ -18,6 +18,7 @@ RULE = (
     "per-element field); the assembled K, C, M of Get_K_C_M_F() are analysed by dense eigvalsh. Non-trivial = "
     ">=2 elements sharing >=1 node with a clear spectral gap; distinct = sha1 of the case."
     ' elastic_rows / thermal_rows: enumerated rows of 2 and 3 elements of every continuum type under an affine map (non-trivial = every case).'
+    ' mass_fields: enumerated sub-meshes of n elements (n = mass points, stiffness points, 5) of every continuum type with a per-element or per-point density / capacity (non-trivial = every case). elastic_curved / thermal_curved: every 2D type on a bent mesh, reference areas from the element boundaries (Green).'
 )
 ASSUMPTIONS = [
     "dense symmetric eigensolver (LAPACK) and analytic rigid-body modes are the oracle",
